@@ -30,7 +30,7 @@ for p in props:
 hooks = subprocess.run(["git", "-C", "/repo", "log", "--format=%h", "--grep=^hook:"], capture_output=True, text=True).stdout.split()
 m = {
     "version": 1,
-    "setup_cmd": "cd lean && lake build Physt physt_driver",
+    "setup_cmd": "cd lean && lake build Physt PhystGen physt_driver",
     "hooks": {"guard": "PHYST_VERIF", "enable": "no hooks are needed: every observation is made through physt's public API in-process (physt is an editable install of /repo/src); the checks export PHYST_VERIF=1 but the library does not read it",
               "baseline_off_cmd": "cd /repo && /venv/bin/python -m pytest -ra -q -p no:cacheprovider --timeout=900 --continue-on-collection-errors",
               "source_commits": hooks, "add_only": True},
